@@ -11,6 +11,8 @@ from harness.common import Failure, Spec, coq_bytes, coq_list
 #          of the transport (only with "stack": "boot"), i.e. by the protocol the bootstrap carries
 #   stack "plain" (default): the sending TelnetTransport carries a plain TelnetProtocol; "boot": it carries a
 #         TelnetBootstrapProtocol (a ProtocolTransportMixin, the manhole stacking) which carries an inner protocol
+#   accept (optional, default false) the RECEIVING application's enableLocal/enableRemote accept every option (so option
+#         commands in the stream -- IAC WILL BINARY, DO ECHO, ... -- really switch options on before/between the data)
 #   kind  (optional, default "list") how the chunks are handed to writeSequence: "list", "tuple", "gen" (a generator)
 #         or "iter" (a list iterator) -- ITransport.writeSequence takes "an iterable of byte strings", which may be one-shot
 #   ops   write / writeSequence / requestNegotiation(about, data) calls made on the sending TelnetTransport;
@@ -78,7 +80,7 @@ def _send(case) -> bytes:
     return tr.value()
 
 
-def _receive(chunks):
+def _receive(chunks, accept=False):
     from twisted.conch import telnet
     from twisted.internet.testing import StringTransport
 
@@ -92,10 +94,16 @@ def _receive(chunks):
             evs.append("S:" + bytes(command).hex() + ":" + b"".join(data).hex())
 
         def enableLocal(self, option):
-            return False
+            return accept
 
         def enableRemote(self, option):
-            return False
+            return accept
+
+        def disableLocal(self, option):
+            pass
+
+        def disableRemote(self, option):
+            pass
 
     class R(telnet.TelnetTransport):
         def commandReceived(self, command, argument):
@@ -119,7 +127,7 @@ def _receive(chunks):
 
 def impl(case) -> str:
     w = _send(case)
-    evs, st = _receive(split_by(case["lens"], w))
+    evs, st = _receive(split_by(case["lens"], w), case.get("accept", False))
     return "w=" + w.hex() + " e=" + " ".join(evs) + " s=" + st
 
 
@@ -247,7 +255,7 @@ def oracle(case, obs):
             return Failure(case, f"IAC-free stream {w.hex()} delivered as {' '.join(evs)[:160]}", "nvt-cr-rule")
     # (4) every segmentation delivers the same stream (when the stream raises nothing when delivered whole)
     if len(case["lens"]) > 0 and w:
-        whole, st1 = _receive([w])
+        whole, st1 = _receive([w], case.get("accept", False))
         if not any(e.startswith("!") for e in whole):
             if _flat(whole) != _flat(evs) or st1 != st:
                 return Failure(case, f"segmentation {case['lens']} changes the delivered stream: "
@@ -327,8 +335,27 @@ RAW_PIECES = [b"\xff\xfb\x01", b"\xff\xfd\x03", b"\xff\xfe\xff", b"\xff\xfc\x00"
               b"\r\r\n", b"\rA", b"abc", b"\xff\xff", b"\n", b"\r", b"\xff", b"\xff\xfa", b"\xff\xfb"]
 
 
+NEG_OPTS = [0, 0, 1, 3, 34, 31]          # BINARY, ECHO, SGA, LINEMODE, NAWS
+
+
+def _negotiated(rng, case, p=0.35):
+    """with probability p the receiving application accepts every option and option commands (WILL/DO, sometimes
+    WONT/DONT) for BINARY, ECHO, SGA, LINEMODE, NAWS are put on the wire before and between the operations"""
+    if rng.random() >= p:
+        return case
+    ops = []
+    for o in [None] + case["ops"]:
+        if o is not None:
+            ops.append(o)
+        if o is None or rng.random() < 0.3:
+            for _ in range(rng.randrange(1, 4) if o is None else 1):
+                verb = rng.choice([251, 251, 253, 253, 252, 254])
+                ops.append(["raw", bytes([IAC, verb, rng.choice(NEG_OPTS)]).hex()])
+    return {**case, "accept": True, "ops": ops}
+
+
 def gen(rng, tier):
-    return [_stacked(rng, c) for c in _gen(rng, tier)]
+    return [_negotiated(rng, _stacked(rng, c)) for c in _gen(rng, tier)]
 
 
 def _gen(rng, tier):
@@ -386,6 +413,9 @@ def corpus():
     return [
         {"ops": [["ws", ["61ff", "f40a62"]]], "lens": []},           # IAC IP through writeSequence
         {"ops": [["ws", ["0a"]]], "lens": []},                       # LF through writeSequence
+        # options switched on first (the receiving application accepts): WILL BINARY, DO BINARY, WILL ECHO, DO SGA
+        {"accept": True, "ops": [["raw", "fffb00"], ["raw", "fffd00"], ["w", "610a62ff0a"], ["raw", "fffb01"], ["raw", "fffd03"],
+                                 ["ws", ["0a", "ff0a"], "list"]], "lens": [2, 0, 4]},
         # the manhole stacking: a TelnetBootstrapProtocol on top; writes at the transport and through the bootstrap
         {"stack": "boot", "ops": [["w", "6f6e650a74776f0a"], ["ws", ["610a", "ff62"], "tuple"]], "lens": []},
         {"stack": "boot", "ops": [["bw", "780a79ff"], ["bws", ["780a", "79ff"], "list"]], "lens": [2, 0, 3]},
@@ -458,6 +488,7 @@ def histogram(case, obs):
     k += "+seq" if "ws" in kinds else ""
     k += "(one-shot)" if any(_k(o) == "ws" and len(o) > 2 and o[2] in ("gen", "iter") for o in case["ops"]) else ""
     k += " boot" if case.get("stack") == "boot" else ""
+    k += " negotiated" if case.get("accept") else ""
     k += " split" if case["lens"] else " whole"
     return k
 
@@ -478,7 +509,9 @@ SPEC = Spec(
          "non-trivial = the wire contains IAC or CR LF, or a command / subnegotiation / exception was observed",
     trusted=["hand-written model coq/C38/Model.v (tied by this correspondence run only)",
              "bytes.replace with a one-byte pattern = flat_map (validated by the wire comparison on every case)",
-             "the receiving protocol refuses every option; negotiation replies are not observed here (C39)"],
+             "the receiving protocol refuses every option, or (35% of the cases) accepts every option with WILL/DO/WONT/DONT "
+             "for BINARY, ECHO, SGA, LINEMODE, NAWS on the wire before and between the data; negotiation replies are not "
+             "observed here (C39)"],
     assumptions=["writeSequence modelled as repaired by fixes/C38-writesequence-escaping.patch (= write(b''.join(seq)))",
                  "write/writeSequence made on a TelnetBootstrapProtocol stacked on the transport are modelled as the same call "
                  "on the transport (repaired by fixes/C38-bootstrap-double-newline.patch; the pinned bootstrap write sends CR CR LF)"],
